@@ -716,7 +716,6 @@ func cmdCheck(prop string, args []string) int {
 		}
 		if kf != nil {
 			knownHit[c] = fl.count
-			lines = append(lines, fmt.Sprintf("KNOWN-FINDING: property=%s %s [class %q, %d of %d runs]", prop, kf.What, c, fl.count, total.runs))
 			continue
 		}
 		newViol++
@@ -731,6 +730,16 @@ func cmdCheck(prop string, args []string) int {
 		lines = append(lines, fmt.Sprintf("VIOLATION property=%s replay=%s", prop, path))
 		lines = append(lines, fmt.Sprintf("  class: %s (%d of %d runs)\n  %s", c, fl.count, total.runs, strings.ReplaceAll(fl.first.Res.Viol.Msg, "\n", "\n  ")))
 		exit = 1
+	}
+	for _, kf := range known.Findings {
+		if kf.Property != prop {
+			continue
+		}
+		if n, ok := knownHit[kf.Class]; ok {
+			lines = append(lines, fmt.Sprintf("KNOWN-FINDING: property=%s %s [class %q; reproduced in %d of %d runs of this batch]", prop, kf.What, kf.Class, n, total.runs))
+		} else {
+			lines = append(lines, fmt.Sprintf("KNOWN-FINDING: property=%s %s [class %q; listed in known_findings.json, not reproduced by this batch's seeds]", prop, kf.What, kf.Class))
+		}
 	}
 	if len(total.undecided) > 0 && exit == 0 {
 		exit = 2
@@ -1075,6 +1084,11 @@ func cmdReplay(mode, file string) int {
 				return 2
 			}
 		}
+		if os.Getenv("VSIM_NOTES") != "" {
+			for _, n := range r.Res.Notes {
+				fmt.Println("  note:", n)
+			}
+		}
 		if r.Same {
 			fmt.Printf("VIOLATION property=%s replay=%s\n  class: %s\n  %s\n  (reproduced: %d decisions, schedule hash %x)\n", rf.Property, file, r.Res.Viol.Class, strings.ReplaceAll(r.Res.Viol.Msg, "\n", "\n  "), r.Res.Steps, r.Res.Hash)
 			return 1
@@ -1117,6 +1131,9 @@ func replaySeedOnly(bin string, rf ReplayFile) int {
 // evidence
 
 func writeEvidence(prop, tier string, base uint64, spec checkSpec, t *totals, wall float64, newViol int, knownHit map[string]int, key string) {
+	if os.Getenv("VSIM_NO_EVIDENCE") != "" {
+		return
+	}
 	samples := t.samples
 	if len(samples) == 0 {
 		samples = []any{"(no run completed)"}
